@@ -177,6 +177,99 @@ func c19LayoutRun(w *Worker, lexemes []string, gapItems []string, rep *Report) {
 	rep.addExplore(nil, st, hit)
 }
 
+// c19CRLFRun: a source with CRLF line ends - also inside a string literal that
+// wraps onto the next line and inside a raw section - lexes to the same
+// (type, literal) sequence as the same source with LF line ends. 'C' in a
+// piece is a symbolic character (not a quote, backslash, backtick or line end).
+func c19CRLFRun(w *Worker, pieces []string, rep *Report) {
+	lexFn := w.E.Func(HzPkg, "Lex")
+	shape := c19Shape{Sub: "crlf", Lexemes: pieces}
+	stopped := false
+	name := fmt.Sprintf("c19/crlf/%q", strings.Join(pieces, ""))
+	body := func(c *interp.Ctx) {
+		var crlf, lf []interp.Part
+		k := 0
+		for _, p := range pieces {
+			if p == "\r\n" {
+				crlf, lf = append(crlf, interp.LitPart("\r\n")), append(lf, interp.LitPart("\n"))
+				continue
+			}
+			for _, ch := range p {
+				if ch == 'C' {
+					cell := c.NewCell([]int{1, 2, 3}[k%3], 1, '\n', '\r', '"', '\\', '`', 0xFFFD)
+					k++
+					crlf, lf = append(crlf, interp.CellPart(cell)), append(lf, interp.CellPart(cell))
+				} else {
+					crlf, lf = append(crlf, interp.LitPart(string(ch))), append(lf, interp.LitPart(string(ch)))
+				}
+			}
+		}
+		in1, in2 := interp.MkRope(crlf), interp.MkRope(lf)
+		got := tokensOf(w.E.Call(c, lexFn, in1))
+		want := tokensOf(w.E.Call(c, lexFn, in2))
+		if stopped {
+			return
+		}
+		msg := ""
+		if len(got) != len(want) {
+			msg = fmt.Sprintf("%d tokens with CRLF line ends, %d with LF", len(got), len(want))
+		} else {
+			for i := range got {
+				if sameValue(c, got[i].Type, want[i].Type) != 1 || sameValue(c, got[i].Lit, want[i].Lit) != 1 {
+					msg = fmt.Sprintf("token %d is (%s, %s) with CRLF line ends and (%s, %s) with LF", i, interp.ToString(got[i].Type), interp.ToString(got[i].Lit), interp.ToString(want[i].Type), interp.ToString(want[i].Lit))
+					break
+				}
+			}
+		}
+		if msg == "" {
+			rep.crossOK()
+			return
+		}
+		stopped = true
+		_, model := c.CheckModel("true", c.IntVars)
+		s1, err1 := interp.Instantiate(in1, model)
+		s2, err2 := interp.Instantiate(in2, model)
+		f := &Finding{Property: "C19", Case: name, Sub: "crlf", Msg: msg, Sources: map[string]string{"crlf": s1, "lf": s2}, Model: model, Shape: shape}
+		if err1 != nil || err2 != nil {
+			rep.unconfirmed(f)
+			return
+		}
+		a, _, oka := nativeTokens(w, s1)
+		b, _, okb := nativeTokens(w, s2)
+		f.Outputs = map[string]string{"crlf": fmt.Sprint(a), "lf": fmt.Sprint(b)}
+		same := oka && okb && len(a) == len(b)
+		if same {
+			for i := range a {
+				if a[i]["Type"] != b[i]["Type"] || a[i]["Literal"] != b[i]["Literal"] {
+					same = false
+				}
+			}
+		}
+		if same {
+			rep.unconfirmed(f)
+			return
+		}
+		f.Confirmed = true
+		rep.violation(f)
+	}
+	st, hit := w.E.Explore(w.S, 256, body, func(c *interp.Ctx, r interp.PathResult) {
+		if r.Outcome == interp.PathTargetPanic && !stopped {
+			stopped = true
+			rep.violation(&Finding{Property: "C19", Case: name, Sub: "crlf", Msg: "the lexer panicked: " + r.Msg, Shape: shape, Confirmed: true})
+		}
+	})
+	rep.addExplore(nil, st, hit)
+}
+
+var c19CRLFInputs = [][]string{
+	{"text T {", "\r\n", "\"abC", "\r\n", " cd$\"", "\r\n", "}"},
+	{"\"aC", "\r\n", "\t  bC", "\r\n", "c\"", " x"},
+	{"cmd(\"C one", "\r\n", "two\", ascii\"C", "\r\n", "   z\")", "\r\n"},
+	{"\"a\"", "\r\n", "\"bC\"", "\r\n", "\"c\""},
+	{"foo # C", "\r\n", "bar // C", "\r\n", "\r\n", "baz"},
+	{"format(\"C a", "\r\n", "b\", 100)"},
+}
+
 // c19Positions: one NextToken from a lexer whose position counters are
 // arbitrary (line L, byte column C, character column U of the current
 // character), on gap+lexeme+" z".
@@ -501,10 +594,10 @@ func RunC19(env *Env, rep *Report) {
 		rep.note(fmt.Sprintf("position sub-check NOT RUN: lexer fields %v not found (renamed?)", missing))
 	}
 	rep.Technique = "symbolic execution of the real lexer (go/ssa): comment characters symbolic for layout independence; position counters havocked to arbitrary line/column values for one NextToken step, position equalities decided by the solver (z3 LIA)"
-	rep.Explanation = "Bounded symbolic verification, not a proof. (a) Layout independence: for lexeme lists (one representative per token class incl. multi-byte identifiers, hex, negative numbers, string-type prefixes, raw strings, lone '-', '&', '|') of length 1, 2 (all pairs) and 3 (reduced set), the real lexer is executed symbolically on the list joined by every layout gap of up to the stated number of items over {space, tab, LF, CRLF, '#...', '//...'} - the characters inside comments are symbolic source characters of 1..4 bytes - and on the single-space rendering; the (type, literal) sequences must be equal. (b) Positions for every line/column: one NextToken step is executed from a lexer whose five position counters are set (by field name, inside the engine) to arbitrary values L, C, U - the line, byte column and character column at which lexing resumes - for every lexeme after each of 9 layout prefixes; start line/columns must equal the position of the lexeme's first character and, for single-line tokens other than raw strings, end = start + length, as validity queries over all L, C, U (one inductive step instead of enumerating file prefixes)."
+	rep.Explanation = "Bounded symbolic verification, not a proof. (a) Layout independence: for lexeme lists (one representative per token class incl. multi-byte identifiers, hex, negative numbers, string-type prefixes, raw strings, lone '-', '&', '|') of length 1, 2 (all pairs) and 3 (reduced set), the real lexer is executed symbolically on the list joined by every layout gap of up to the stated number of items over {space, tab, LF, CRLF, '#...', '//...'} - the characters inside comments are symbolic source characters of 1..4 bytes - and on the single-space rendering; the (type, literal) sequences must be equal. (b) Positions for every line/column: one NextToken step is executed from a lexer whose five position counters are set (by field name, inside the engine) to arbitrary values L, C, U - the line, byte column and character column at which lexing resumes - for every lexeme after each of 9 layout prefixes; start line/columns must equal the position of the lexeme's first character and, for single-line tokens other than raw strings, end = start + length, as validity queries over all L, C, U (one inductive step instead of enumerating file prefixes). (c) CRLF: sources with CRLF line ends between tokens, after comments and inside string literals that wrap onto the next line (with symbolic characters in the strings and comments) lex to the same (type, literal) sequence as the same source with LF line ends."
 	rep.Bounds = map[string]interface{}{"lexemes": c19Lexemes, "layout_items": c19LayoutItems, "max_gap_items": maxGap, "layout_cases": nLayout, "position_cases": len(jobs) - nLayout}
 	rep.Outside = []string{"lexeme lists longer than 3", "non-ASCII characters other than the representative set (2-, 3- and 4-byte letters, digits, spaces, symbols)", "the end column of raw strings (excluded by the property)", "'hence the compiled output does not change' is not re-checked here (the parser only sees the token stream)"}
-	rep.Outside = append(rep.Outside, "layout between two adjacent string literals (the lexer merges them into one token, so that layout is inside a token)")
+	rep.Outside = append(rep.Outside, "line ends inside raw sections (their content is verbatim by design, CR included)", "layout between two adjacent string literals (the lexer merges them into one token, so that layout is inside a token)")
 	rep.Assumptions = []string{"representation invariant of the havocked lexer state: charNumber = C + size of the current character, utf8CharNumber = U + 1, prev* = C / U, 0 <= U <= C", "Unicode classification of non-ASCII characters is taken from the host's tables for the representative characters"}
 	rep.Functions = []string{"lexer."}
 	rep.Match = func(k *KnownFinding, f *Finding) bool { return false }
@@ -540,6 +633,13 @@ func RunC19(env *Env, rep *Report) {
 		} else {
 			c19LayoutRun(w, j.lex, j.gap, rep)
 		}
+	})
+	env.RunJobs(len(c19CRLFInputs), rep, func(w *Worker, i int) {
+		rep.mu.Lock()
+		rep.Cases++
+		rep.NonTrivial++
+		rep.mu.Unlock()
+		c19CRLFRun(w, c19CRLFInputs[i], rep)
 	})
 }
 
